@@ -179,7 +179,7 @@ def expand(hist):
 # ------------------------------------------------------------ (b) schedules
 
 CRITICAL = {'get_signer', 'sign', 'verify', 'http_redirect_message', 'apply_binding', 'verify_redirect_signature',
-            'key_sign', 'key_verify', 'use_http_get'}
+            'key_sign', 'key_verify', 'use_http_get', 'import_rsa_key_from_file'}
 SCEN = {}
 WARM = set()
 
@@ -244,6 +244,38 @@ def scenario_bodies(name):
                         bad.append('url-of-e1-verifies-under-other-key')
             if res[1] != ('ok', True):
                 bad.append('concurrent-verify-returned-%s' % (res[1][1],))
+            return bad
+        return mk, check
+    if name == 'construct-construct':
+        # two entities are being set up at the same time (their security contexts are built from their own
+        # configurations), then each signs: whatever the other does meanwhile, each ends up with its own key
+        from saml2_tophat.sigver import security_context
+        from saml2_tophat.pack import http_redirect_message
+        confs = {'e1': ents['e1'].config, 'e2': ents['e2'].config}
+
+        def body(n):
+            def f():
+                sec = security_context(confs[n])
+                signer = sec.sec_backend.get_signer(a)
+                return location(http_redirect_message(MSG, DEST, 'rs-' + n, 'SAMLRequest', sigalg=a, signer=signer))
+            return f
+
+        def mk():
+            return [body('e1'), body('e2')]
+
+        def check(res):
+            bad = []
+            for i, owner in enumerate(('e1', 'e2')):
+                r = res[i]
+                if r[0] != 'ok':
+                    bad.append('thread-%d-raised-%s' % (i, r[1]))
+                    continue
+                for n in ('e1', 'e2'):
+                    ok = independent_verify(r[1], KEYOF[n])
+                    if ok and n != owner:
+                        bad.append('url-of-%s-verifies-under-other-key' % owner)
+                    if not ok and n == owner:
+                        bad.append('url-of-%s-not-under-own-key' % owner)
             return bad
         return mk, check
     raise ValueError(name)
@@ -383,6 +415,40 @@ def eval_mutations(row):
     return a, rs, res
 
 
+# ------------------------------------------------------------ (d) key sizes
+
+KEYSIZES = ('rsa1024', 'rsa1025', 'rsa2047', 'rsa3072')
+
+
+def eval_keysize(task):
+    """An entity whose signing key has the given modulus length (also lengths that are no multiple of 8): its signed
+    redirect URL verifies under its own certificate (independent verifier and the library's), under no other."""
+    from saml2_tophat import BINDING_HTTP_REDIRECT
+    from saml2_tophat.sigver import verify_redirect_signature
+    kn, a = task
+    ents = entities()
+    if ('ks', kn) not in ENT:
+        ENT[('ks', kn)] = world.make_sp(TMP[0], entity_id='urn:vp:' + kn, key_name=kn, enc=())
+    e = ENT[('ks', kn)]
+    bad = []
+    for is_resp in (False, True):
+        url = location(e.apply_binding(BINDING_HTTP_REDIRECT, MSG if not is_resp else MSG.replace('AuthnRequest', 'Response'), DEST, 'rs k',
+                                       sign=True, sigalg=ALGS[a], response=is_resp))
+        if not independent_verify(url, kn):
+            bad.append('url-does-not-verify-under-requesters-certificate')
+        if independent_verify(url, 'spX'):
+            bad.append('url-verifies-under-other-certificate')
+        q = dict(parse_qsl(urlsplit(url).query, keep_blank_values=True))
+        for cert, want in ((kn, True), ('spX', False), ('rsa2047' if kn != 'rsa2047' else 'rsa1025', False)):
+            try:
+                r = bool(verify_redirect_signature(dict(q), ents['e2'].sec.sec_backend, world.cert_b64(cert)))
+            except Exception as ex:
+                r = 'EXC:%s' % type(ex).__name__
+            if r is not want:
+                bad.append('library-verification-under-%s-certificate-returned-%s' % ('own' if want else 'another', r))
+    return kn, a, sorted(set(bad))
+
+
 # ------------------------------------------------------------------- run
 
 def run(ctx):
@@ -415,7 +481,7 @@ def run(ctx):
         frontier = nxt
     # (b) schedules
     bound = 1 if not ctx.thorough else 2
-    scen = ['sign-sign-same-alg', 'sign-sign-diff-alg', 'verify-verify', 'sign-verify']
+    scen = ['sign-sign-same-alg', 'sign-sign-diff-alg', 'verify-verify', 'sign-verify', 'construct-construct']
     sched_n = {}
     tasks = []
     points = {}
@@ -453,6 +519,14 @@ def run(ctx):
             n_mut += 1
             for y in bad:
                 ctx.violation({'kind': 'mutation', 'why': y, 'mutation': name, 'alg': a, 'relay_state': rs}, {'verdicts': outs})
+    # (d) key sizes
+    ktasks = [(kn, a) for kn in KEYSIZES for a in ALGS]
+    n_ks = 0
+    for kn, a, bad in ctx.pmap(eval_keysize, ktasks, chunksize=2):
+        n_ks += 1
+        for y in bad:
+            ctx.violation({'kind': 'keysize', 'why': y, 'key': kn, 'alg': a}, {})
+    n_mut += n_ks
     total_sched = sum(sched_n.values())
     return {
         'level': 'model_checking',
@@ -463,7 +537,7 @@ def run(ctx):
                         {'schedule_scenarios': scen, 'schedules_per_scenario': sched_n, 'scheduling_points_per_execution': points}],
             'exhaustive': True, 'op_sequence_states': len(seen), 'op_sequence_depth': depth, 'op_states_by_depth': by_depth,
             'schedules': total_sched, 'preemption_bound': bound, 'preemption_bound_note': 'thorough: bound 2 for sign||sign(same alg) and verify||verify, bound 1 for the two control scenarios', 'query_mutations': n_mut,
-            'rule': '(a) BFS over all sequences (depth %d) of get_signer / sign-with-held-signer / apply_binding(REDIRECT, sign=True) / verify_redirect_signature by %d real entities with different keys, merged by (held signers and their object sharing, URLs produced); after every step every produced URL must verify (independent verifier over the raw query octets) under its requester\'s certificate and no other. (b) every thread schedule with <= %d preemptions of 4 two-thread scenarios (sign||sign same/different algorithm, verify||verify, sign||verify), scheduling points = every source line in the package + every bytecode inside %s. (c) complete single-parameter mutation table of a signed query for every algorithm and 6 RelayStates.' % (depth, len(names), bound, sorted(CRITICAL)),
+            'rule': '(a) BFS over all sequences (depth %d) of get_signer / sign-with-held-signer / apply_binding(REDIRECT, sign=True) / verify_redirect_signature by %d real entities with different keys, merged by (held signers and their object sharing, URLs produced); after every step every produced URL must verify (independent verifier over the raw query octets) under its requester\'s certificate and no other. (b) every thread schedule with <= %d preemptions of 5 two-thread scenarios (sign||sign same/different algorithm, verify||verify, sign||verify, construct||construct: two security contexts built concurrently, then each signs), scheduling points = every source line in the package + every bytecode inside %s. (c) complete single-parameter mutation table of a signed query for every algorithm and 6 RelayStates. (d) signing keys of 1024, 1025, 2047 and 3072 bits x every algorithm x request/response.' % (depth, len(names), bound, sorted(CRITICAL)),
         },
         'assumptions': ['CPython GIL: a single bytecode is atomic; C-level code (cryptography, urlencode internals) is not interleaved',
                         'no free-running race detector exists for Python; opcode-level points inside the critical functions stand in for it'],
@@ -481,6 +555,9 @@ def replay(ctx, w):
         s, res = schedules.run_schedule(mk, expand_switches(w['switches']), pkg_dir(), CRITICAL)
         why = check(res)
         return {'violation': bool(why), 'why': why}
+    if w['kind'] == 'keysize':
+        _k, _a, bad = eval_keysize((w['key'], w['alg']))
+        return {'violation': bool(bad), 'why': bad}
     rows = mutation_table([w['alg'].split('/')[0]])
     rows = [r for r in rows if r[0] == w['alg']]
     for row in rows:
